@@ -166,6 +166,7 @@ pub fn check(c: &Case, ctx: &mut Ctx) -> Result<(), Failure> {
 fn field() -> BoxedStrategy<f64> {
     prop_oneof![
         1 => (0usize..3).prop_map(|i| [3e306, 1.5e307, -8e306][i]),
+        1 => (0usize..4).prop_map(|i| [3e-310, 5e-324, -3e-310, 9.9e-311][i]),
         6 => 0.5f64..500.0,
         2 => -100.0f64..100.0,
         1 => (-6.0f64..9.0).prop_map(|e| 10f64.powf(e)),
@@ -190,7 +191,7 @@ fn noise_field() -> BoxedStrategy<f64> {
 
 fn strategy(maxlen: usize) -> BoxedStrategy<Case> {
     any_kind()
-        .prop_flat_map(|k| cfg_for(k, 64, multiplier_any()))
+        .prop_flat_map(|k| cfg_for(k, 300, multiplier_any()))
         .prop_flat_map(move |cfg| {
             let n = flush_len(&cfg);
             let lenr = 1..=(3 * n + 10).min(maxlen);
@@ -221,9 +222,9 @@ fn strategy(maxlen: usize) -> BoxedStrategy<Case> {
 pub fn run(g: &mut Global) {
     // compile-time part: every indicator instantiated on minimal-trait bar types
     let _ = minimal_trait_instantiation();
-    g.rule = "random: proptest (kind among all 22, periods to 64, bars with five independently drawn finite fields, or consistent bars, or one-price bars) plus unrelated noise values. Oracle: (1) next(&bar) = next(bar.close) for the close-only indicators, next(bar.low) for MIN, next(bar.high) for MAX, within 1e-12 relative; (2) one-price bars = scalar path for FAST_STOCH, SLOW_STOCH, TRUE_RANGE, ATR, and KC within 16 ulp of the price scale; (3) replacing every field the indicator is not documented to read (open always; volume except MFI/OBV; high/low for close-only ones) by unrelated values incl. +-1e300 leaves every output bit-identical; (4) ta::DataItem and the harness's own implementor carrying the same numbers give bit-identical outputs and DataItem's getters return the numbers it was built from. Non-trivial = noise values differ from every field of every bar and the stream is longer than the window; distinct by hash of (kind, parameters, bars).".into();
+    g.rule = "random: proptest (kind among all 22, periods to 300, bars with five independently drawn finite fields, or consistent bars, or one-price bars) plus unrelated noise values. Oracle: (1) next(&bar) = next(bar.close) for the close-only indicators, next(bar.low) for MIN, next(bar.high) for MAX, within 1e-12 relative; (2) one-price bars = scalar path for FAST_STOCH, SLOW_STOCH, TRUE_RANGE, ATR, and KC within 16 ulp of the price scale; (3) replacing every field the indicator is not documented to read (open always; volume except MFI/OBV; high/low for close-only ones) by unrelated values incl. +-1e300 leaves every output bit-identical; (4) ta::DataItem and the harness's own implementor carrying the same numbers give bit-identical outputs and DataItem's getters return the numbers it was built from. Non-trivial = noise values differ from every field of every bar and the stream is longer than the window; distinct by hash of (kind, parameters, bars).".into();
     g.assumptions = vec!["documented fields per indicator are those listed in the property (close; low for MIN; high for MAX; high/low/close for the bar indicators; + volume for MFI, close+volume for OBV)".into()];
-    g.random("random", g.tier.pick(100000, 8000000), &|| strategy(200), &check);
+    g.random("random", g.tier.pick(100000, 8000000), &|| strategy(1000), &check);
     // long flat runs after a short active prefix: the bar path and the scalar path must still agree
     // when exponential averages decay to zero (periods 1..=3 get there within ~1100 bars)
     g.exhaustive(
